@@ -666,7 +666,7 @@ def run(ctx):
                     ctx.violation("real Filter treats a URI value differently from UriVerdict (code-faithful model): expected %s, got %s" % (exp, got),
                                   {"kind": "replay-url", "v": rec["v"], "variant": k, "expected": exp, "got": got})
             if not shown and batch:
-                m = batch[len(batch) // 2]
+                m = min(batch, key=lambda x: hashlib.md5(json.dumps(x["v"]).encode()).hexdigest())     # TLC's output order varies
                 ctx.sample({"spec_to_code": "a[href=%r]" % core.ucs(m["v"]), "browser_scheme": dec(m["bs"]), "expected": m["verdict"]})
                 shown = True
     for m, n in san_runs:
@@ -699,7 +699,7 @@ def run(ctx):
                                   {"kind": "replay-stream", "config": kw_to_json(kw), "exception": exc})
             cand = [x for x in recs if len(x["inp"]["a"]) == 2 and x["r"] == "tok" and x["out"] != x["inp"]]
             if cand:
-                mrec = cand[len(cand) // 3]
+                mrec = min(cand, key=lambda x: hashlib.md5(json.dumps([x["k"], x["inp"]], sort_keys=True).encode()).hexdigest())
                 ctx.sample({"spec_to_code": tok.show(mrec["inp"]), "config": mrec["k"], "expected": tok.show(mrec["out"]) if mrec["r"] == "tok" else mrec["r"]})
         elif m in ("css", "csscore"):
             cfg = [rec["cfg"] for rec in recs if "at" in rec["cfg"]][0]
